@@ -74,7 +74,7 @@ def shift_indel(base, c, op, direction):
     if op.startswith("ins"):
         S = op[3:]
         if direction < 0:
-            while c >= 0 and base[c] == S[-1]:
+            while c > 0 and base[c] == S[-1]:      # stays inside the simulated copy (column 0 is its first base)
                 S = S[-1] + S[:-1]
                 c -= 1
         else:
